@@ -95,7 +95,10 @@ def run_spec(ctx, rep, spec, model, only=None):
             rep.fail(f"query at an interior cell centre raised {type(e).__name__}: {e}", case)
             continue
         got = [float(x) for x in np.atleast_1d(np.asarray(got, dtype=float))]
-        if len(got) != len(want) or any(abs(a - b) > 1e-9 * max(1.0, abs(b)) for a, b in zip(got, want)):
+        # the centre is only representable up to the rounding of its coordinates: an error of a few ulp(p) is an error of
+        # ulp(p)/dx cells in the index the interpolation is asked for, times the variation of the data between cells (< 2**9)
+        slack = 2 ** 9 * 16 * 2.2e-16 * max(abs(pt[d]) / (spec["dx0"][d] / 2 ** lv) for d in range(3))
+        if len(got) != len(want) or any(abs(a - b) > 1e-9 * max(1.0, abs(b)) + slack for a, b in zip(got, want)):
             rep.fail(f"query returned {got}, the stored cell value is {want}", case, obs={"got": got, "want": want})
             continue
         if model:
@@ -118,8 +121,10 @@ def run_spec(ctx, rep, spec, model, only=None):
                     pass
     if model and reqs:
         for (case, lv, bid, loc), m in zip(pend, leanio.driver(reqs)):
+            # the model works on the exact rational value of the float coordinates: on dyadic meshes the local index is the
+            # integer itself, otherwise it is the integer up to the rounding of the point
             if (m.get("status") == "case1" and m["level"] == lv and m["box"] == bid
-                    and [Fr(a, b) for a, b in m["local"]] == [Fr(x) for x in loc]):
+                    and all(abs(Fr(a, b) - Fr(x)) <= Fr(1, 10 ** 6) for (a, b), x in zip(m["local"], loc))):
                 rep.agree()
             else:
                 rep.tie("the Lean matching model does not select this cell (single-box case, box, local index)", case, m)
@@ -130,7 +135,7 @@ def run(ctx, rep, model=True):
     for i in range(n):
         spec = plotgen.random_spec(ctx.rng, ndims=3, nlev=[2, 1, 3][i % 3], nf=[2, 3][i % 2], data="smallint", B=4,
                                    nblk=[[2, 1, 1], [1, 2, 1], [1, 1, 2]][i % 3], origin=(i % 4 != 3), aniso=(i % 2 == 0),
-                                   refine_p=0.4)
+                                   refine_p=0.4, scale=[None, "far", None, "tiny", None][i % 5], exact=(i % 3 != 1))
         run_spec(ctx, rep, spec, model)
         if len(rep.violations) >= 10:
             return
